@@ -97,6 +97,22 @@ CORPUS = [
 ]
 
 
+# references that are not defined / not in scope inside range LISTS and range expressions of every type: the decoder refuses
+# them (C03); one that does not lets create_job fail for a missing variable (seed C06-7)
+for _ty, _ok in (("INT", 1), ("FLOAT", 1.5), ("STRING", "a"), ("PATH", "a")):
+    for _bad in ("{{Param.Nope}}", "{{RawParam.Nope}}", "{{Task.Param.T}}", "{{ Session.WorkingDirectory }}", "x{{Param.Nope}}"):
+        for _rng in ([_ok, _bad], [_bad], [_bad, _ok, _ok]):
+            CORPUS.append({"doc": _jt([{"name": "S", "type": "STRING"}], {"parameterSpace": {"taskParameterDefinitions": [{"name": "T", "type": _ty, "range": _rng}]}}), "envs": [], "vals": {"S": "1"}})
+CORPUS.append({"doc": _jt([{"name": "S", "type": "STRING"}], {"parameterSpace": {"taskParameterDefinitions": [{"name": "T", "type": "INT", "range": "1-{{Param.Nope}}"}]}}), "envs": [], "vals": {"S": "1"}})
+# vast spaces inside an association (each operand a product of 2**64 sets): the Job is returned and can be walked (seed C06-8)
+for _comb in ("(A * B, C * D)", "(A * B, C * D) * E", "A * B * C * D", "(A, B) * (C, D)", None):
+    _tp = [{"name": n, "type": "INT", "range": "{{Param.R}}"} for n in "ABCD"] + [{"name": "E", "type": "INT", "range": [1, 2]}]
+    _ps = {"taskParameterDefinitions": _tp}
+    if _comb:
+        _ps["combination"] = _comb if "E" in _comb else _comb + " * E"
+    CORPUS.append({"doc": _jt([{"name": "R", "type": "STRING"}], {"parameterSpace": _ps}), "envs": [], "vals": {"R": "1-4294967296"}})
+
+
 # several pieces that only TOGETHER exceed what a container can hold (each below 2**63 values, the sum not), with and
 # without a combination (seed C06-4); one value below the limit for contrast
 for _r in ("1-5000000000000000000,6000000000000000000-11000000000000000000", "0-4611686018427387903,4611686018427387905-9223372036854775808",
@@ -263,16 +279,19 @@ class C06(core.PropBase):
             try:
                 for st in job.steps:
                     it = StepParameterSpaceIterator(space=st.parameterSpace)
-                    n = len(it)
+                    try:
+                        n = len(it)
+                    except OverflowError:
+                        n = None        # 2**63 sets or more: no Python container can say so (DESIGN 0.4); building and iterating still work
                     cnt = 0
                     for ps in it:
                         cnt += 1
                         if cnt >= 20000:
                             break
-                    if cnt != min(n, 20000):
+                    if cnt != min(n if n is not None else 20000, 20000):
                         usable = f"len {n} but {cnt} sets"
                     if n:
-                        it[0], it[-1]
+                        it[0], it[-1]        # (indexing needs len(): not asked of a space that cannot say its length)
                 g = StepDependencyGraph(job=job)
                 order = g.topo_sorted()
                 if len(order) != len(job.steps):
